@@ -680,10 +680,26 @@ class Engine:
 
     def loop_invariant(self, env, ordn, st):
         c = self.cur_contract
-        if c is None or env.fn is None or self.depth != c._depth0:
+        if c is None or env.fn is None:
             return None
-        if env.fn.qual != c.func:
-            return None
+        if self.depth != c._depth0 or env.fn.qual != c.func:
+            # a loop inside an inlined helper (a function without a contract of its own).  When the loop was MOVED there from
+            # the function under contract (helper extraction: its header is one the sidecar has an invariant for, and the
+            # function under contract itself no longer contains a loop with that header), the invariant written for it
+            # still applies -- it is checked like any other (entry / preserved obligations), so a wrong guess proves nothing.
+            if env.fn.qual == c.func or not c.invariants:
+                return None
+            hdr = _loop_header(st)
+            own = getattr(c, '_own_headers', None)
+            if own is None:
+                fn0 = self.lookup_qual(c.func) if hasattr(self, 'lookup_qual') else None
+                node0 = getattr(fn0, 'node', None)
+                own = c._own_headers = ({_norm(_loop_header(n)) for n in ast.walk(node0) if isinstance(n, (ast.For, ast.While))}
+                                        if node0 is not None else None)
+            if own is None or _norm(hdr) in own:
+                return None
+            cand = [inv for inv in c.invariants.values() if inv.get('header') and _norm(inv['header']) == _norm(hdr)]
+            return cand[0] if len(cand) == 1 else None
         hdr = _loop_header(st)
         _am = getattr(c, '_alias', None) or {}
         if _am:
